@@ -944,10 +944,11 @@ impl Node {
     pub fn abs_layer_bounding_box(&self) -> Option<NonZeroRect> {
         match self {
             Node::Group(ref group) => Some(group.abs_layer_bounding_box()),
+            // A layer has to include the stroke, just like `Group::layer_bounding_box` does.
             // Hor/ver path without stroke can return None. This is expected.
-            Node::Path(ref path) => path.abs_bounding_box().to_non_zero_rect(),
+            Node::Path(ref path) => path.abs_stroke_bounding_box().to_non_zero_rect(),
             Node::Image(ref image) => image.abs_bounding_box().to_non_zero_rect(),
-            Node::Text(ref text) => text.abs_bounding_box().to_non_zero_rect(),
+            Node::Text(ref text) => text.abs_stroke_bounding_box().to_non_zero_rect(),
         }
     }
 
